@@ -15,6 +15,11 @@
  *   v   every octet string of length 0..3 over the substitution alphabet
  *   vi  hard source error at every octet position, hard sink error at every
  *       reply octet, crossed with allocation failure and one stream mutation
+ *   vii a valid write request, then an undecodable stream, received into ONE
+ *       reused RPMaybeFrame and processed by a lenient caller
+ * Families i and iii also run on "tcp + chunk source offering a scratch buffer
+ * (getbuffer extension)": the frame then reaches the receiver in chunks of up
+ * to 64 octets instead of octet by octet.
  */
 #include "mc.h"
 #include "regp_ref.h"
@@ -79,7 +84,7 @@ replies(struct drv *d, bool tcp, struct rframe *out, unsigned char *scratch)
     if (n < 0)
         return -1;
     for (int i = 0; i < n; ++i)
-        if (rr_verdict(scratch + fr.off[i], fr.len[i], &out[i]) != RV_OK)
+        if (!rr_reply_ok(rr_verdict(scratch + fr.off[i], fr.len[i], &out[i]), &out[i]))
             return -1;
     return n;
 }
@@ -89,6 +94,8 @@ frame_wire(bool tcp, const unsigned char *raw, size_t n, unsigned char *wire)
 {
     return tcp ? rr_lenprefix(wire, raw, n) : rr_slip(wire, raw, n);
 }
+
+static int g_opt_override = -1; /* >= 0: checksum option bits to declare instead of the transport's */
 
 static size_t
 build_request(unsigned char *raw, bool tcp, bool write, bool w16, uint32_t addr, uint32_t bsize, size_t plen, uint16_t seq)
@@ -100,12 +107,23 @@ build_request(unsigned char *raw, bool tcp, bool write, bool w16, uint32_t addr,
     memset(&f, 0, sizeof f);
     f.type = write ? RT_WRITE_REQ : RT_READ_REQ;
     f.options = (w16 ? RO_W16 : 0) | (tcp ? 0 : RO_HDCRC) | ((!tcp && plen) ? RO_PLCRC : 0);
+    if (g_opt_override >= 0)
+        f.options = (w16 ? RO_W16 : 0) | (unsigned)g_opt_override;
     f.seq = seq;
     f.addr = addr;
     f.bsize = bsize;
     f.payload = pl;
     f.plen = plen;
     return rr_build(raw, &f, false, false);
+}
+
+/* transport variants: 0 serial (octet source), 1 tcp (chunk source), 2 tcp
+ * with a chunk source that offers a scratch buffer */
+static const char *TVN[3] = { "serial", "tcp", "tcp+getbuffer" };
+static int
+tv_srcmode(int tv)
+{
+    return tv == 0 ? DRV_SRC_OCTET : tv == 1 ? DRV_SRC_CHUNK : DRV_SRC_CHUNK_GETBUFFER;
 }
 
 static size_t blocksizes[16];
@@ -117,8 +135,9 @@ family_i(void)
 {
     unsigned char raw[RR_MAXFRAME], wire[2 * RR_MAXFRAME + 16], scratch[DRV_WIRE];
     for (int bi = 0; bi < nblocksizes; ++bi)
-        for (int tcp = 0; tcp < 2; ++tcp)
+        for (int tv = 0; tv < 3; ++tv)
             for (int w16 = 0; w16 < 2; ++w16) {
+                const bool tcp = tv != 0;
                 const size_t bsz = blocksizes[bi];
                 const size_t cap = bsz - sizeof(RPFrame);
                 const size_t hdr = tcp ? 12 : 16;
@@ -129,11 +148,11 @@ family_i(void)
                         break;
                     if (w16 && (plen & 1))
                         continue;
-                    if (!mc_case("i blocksize=%zu (capacity %zu) %s write%d frame-length=%zu", bsz, cap, tcp ? "tcp" : "serial", w16 ? 16 : 8, L))
+                    if (!mc_case("i blocksize=%zu (capacity %zu) %s write%d frame-length=%zu", bsz, cap, TVN[tv], w16 ? 16 : 8, L))
                         continue;
                     const size_t n = build_request(raw, tcp, true, w16, 0x40, (uint32_t)(plen / (w16 ? 2 : 1)), plen, 0x0a0b);
                     const size_t wn = frame_wire(tcp, raw, n, wire);
-                    drv_init(&D, tcp, w16, bsz, !tcp);
+                    drv_init_ex(&D, tcp, w16, bsz, tv_srcmode(tv));
                     struct result r;
                     serve(&D, wire, wn, 1, &r);
                     mc_log("recv rc=%d error.id=%d frame=%d process rc=%d calls=%d reply=%zu", r.rrc[0], r.errid[0], r.hadframe[0], r.prc[0], D.ncalls, D.outlen);
@@ -170,23 +189,53 @@ family_i(void)
 }
 
 /* ---- family ii: read block sizes around the transmit limit ------------------------ */
+/* Request header variants.  The library's own encoder produces the two
+ * standard ones; the others declare checksum words the transport does not
+ * mandate.  The reference accepts them with the verdict sets {valid, bad
+ * header} (transport rule violated) and, for a payload checksum without
+ * payload, {valid, bad header, bad payload checksum}: a receiver may refuse
+ * them, but if it executes them the answer area starts behind the header that
+ * was actually received (12, 14 or 16 octets). */
+static const struct hv {
+    bool tcp;
+    int opts; /* -1: the transport's own */
+    size_t hdr;
+    bool standard;
+    const char *name;
+} HV[] = {
+    { false, -1, 14, true, "serial" },
+    { true, -1, 12, true, "tcp" },
+    { true, RO_PLCRC, 14, false, "tcp+payload-crc-bit" },
+    { true, RO_HDCRC, 14, false, "tcp+header-crc" },
+    { true, RO_HDCRC | RO_PLCRC, 16, false, "tcp+both-crc" },
+    { false, RO_HDCRC | RO_PLCRC, 16, false, "serial+payload-crc-bit" },
+};
+
 static void
 family_ii(void)
 {
     unsigned char raw[64], wire[160], scratch[DRV_WIRE];
+    static const uint32_t BIGSZ[] = { 0x7fffffffu, 0x80000000u, 0x80000001u, 0x80000002u, 0x80000008u, 0x80000010u, 0xfffffffeu, 0xffffffffu };
     for (int bi = 0; bi < nblocksizes; ++bi)
-        for (int tcp = 0; tcp < 2; ++tcp)
+        for (unsigned hi = 0; hi < sizeof HV / sizeof *HV; ++hi)
             for (int w16 = 0; w16 < 2; ++w16) {
+                const struct hv *hv = &HV[hi];
+                const bool tcp = hv->tcp;
                 const size_t bsz = blocksizes[bi];
                 const size_t cap = bsz - sizeof(RPFrame);
-                const size_t hdr = tcp ? 12 : 14;
+                const size_t hdr = hv->hdr;
                 if (cap < hdr)
                     continue; /* the request itself does not fit: family i */
                 const size_t ws = w16 ? 2 : 1;
-                for (uint32_t bs = 0; bs * ws <= cap + 8; ++bs) {
-                    if (!mc_case("ii blocksize=%zu (capacity %zu) %s read%d block-size=%u", bsz, cap, tcp ? "tcp" : "serial", w16 ? 16 : 8, bs))
+                const uint32_t nsmall = (uint32_t)((cap + 8) / ws) + 1;
+                for (uint32_t k = 0; k < nsmall + sizeof BIGSZ / sizeof *BIGSZ; ++k) {
+                    /* every size up to capacity+8, then sizes whose octet count needs more than 31 / 32 bits */
+                    const uint32_t bs = k < nsmall ? k : BIGSZ[k - nsmall];
+                    if (!mc_case("ii blocksize=%zu (capacity %zu) %s read%d block-size=%u", bsz, cap, hv->name, w16 ? 16 : 8, bs))
                         continue;
+                    g_opt_override = hv->opts;
                     const size_t n = build_request(raw, tcp, false, w16, 0x1000, bs, 0, 0x0c0d);
+                    g_opt_override = -1;
                     const size_t wn = frame_wire(tcp, raw, n, wire);
                     drv_init(&D, tcp, w16, bsz, !tcp);
                     struct result r;
@@ -196,27 +245,45 @@ family_ii(void)
                     if (safety(&D, "read around the transmit limit")) {
                         struct rframe rp[8];
                         const int nr = replies(&D, tcp, rp, scratch);
-                        const bool fits_behind_header = bs * ws + hdr <= cap;
-                        const bool fits_block = bs * ws <= cap;
-                        if (nr != 1 || rp[0].type != RT_READ_RESP || rp[0].seq != 0x0c0d || rp[0].addr != 0x1000)
+                        const uint64_t octets = (uint64_t)bs * ws;
+                        /* the answer is a message with a header of its own (up to 16 octets): a read
+                         * that fits with it must be served; one that does not even fit behind the
+                         * request's header must be refused; in between either is right */
+                        const bool fits_with_full_header = octets + 16 <= cap;
+                        const bool fits_behind_request = octets + hdr <= cap;
+                        const bool is_read_resp = nr == 1 && rp[0].type == RT_READ_RESP && rp[0].seq == 0x0c0d && rp[0].addr == 0x1000;
+                        if (nr < 0)
+                            mc_fail("C09/reply-well-formed", "the reply to a read request is not a sequence of valid frames");
+                        else if (hv->standard && !is_read_resp)
                             mc_fail("C09/read-answered", "%d replies (first type=%u) to a valid read request", nr, nr > 0 ? rp[0].type : 99);
-                        else if (rp[0].meta == 0) {
-                            outcome = "read-executed";
-                            if (!fits_block)
-                                mc_fail("C09/tx-overflow-response", "a read of %u words (%zu octets) cannot fit capacity %zu but was acknowledged", bs, bs * ws, cap);
-                            else if (D.ncalls != 1 || rp[0].plen != bs * ws)
+                        else if (!is_read_resp) {
+                            /* a non-standard header the receiver did not take as a valid request */
+                            outcome = "read-variant-refused";
+                            if (D.ncalls != 0)
+                                mc_fail("C09/refused-not-executed", "%d replies, none a read response, but %d memory accesses", nr, D.ncalls);
+                        } else if (rp[0].meta == 0) {
+                            outcome = hv->standard ? "read-executed" : "read-variant-executed";
+                            if (!fits_behind_request)
+                                mc_fail("C09/tx-overflow-response", "a read of %u words (%llu octets) cannot fit capacity %zu behind a %zu-octet header but was acknowledged", bs,
+                                        (unsigned long long)octets, cap, hdr);
+                            else if (D.ncalls != 1 || rp[0].plen != octets)
                                 mc_fail("C09/read-answered", "acknowledged read: calls=%d payload=%zu octets for %u words", D.ncalls, rp[0].plen, bs);
                         } else if (rp[0].meta == 5) {
                             outcome = "tx-overflow";
                             const uint32_t val = rp[0].plen == 4 ? ((uint32_t)rp[0].payload[0] << 24 | (uint32_t)rp[0].payload[1] << 16 | (uint32_t)rp[0].payload[2] << 8 | rp[0].payload[3]) : 0;
-                            if (fits_behind_header)
-                                mc_fail("C09/read-that-fits-is-served", "a read of %u words fits behind the request header (capacity %zu) but got a transmit-overflow response", bs, cap);
+                            if (fits_with_full_header)
+                                mc_fail("C09/read-that-fits-is-served", "a read of %u words fits capacity %zu together with a full response header but got a transmit-overflow response", bs, cap);
                             else if (D.ncalls != 0)
                                 mc_fail("C09/tx-overflow-response", "transmit overflow reported after %d memory accesses", D.ncalls);
                             else if (rp[0].plen != 4 || (val != cap && val != bsz && val != cap - hdr))
                                 mc_fail("C09/tx-overflow-response", "transmit-overflow response carries %zu octets, value %u; buffer size is %zu", rp[0].plen, val, cap);
-                        } else
+                        } else if (hv->standard)
                             mc_fail("C09/read-answered", "read answered with response code %u", rp[0].meta);
+                        else {
+                            outcome = "read-variant-refused";
+                            if (D.ncalls != 0)
+                                mc_fail("C09/refused-not-executed", "answered with response code %u after %d memory accesses", rp[0].meta, D.ncalls);
+                        }
                     }
                     drv_release(&D);
                     mc_end(true, mc.cur_failed ? "failed" : outcome);
@@ -229,19 +296,22 @@ static void
 family_iii(void)
 {
     unsigned char raw[3][64], wire[600], scratch[DRV_WIRE];
-    for (int tcp = 0; tcp < 2; ++tcp)
+    for (int tv = 0; tv < 3; ++tv)
         for (int kinds = 0; kinds < 8; ++kinds)
             for (unsigned mask = 0; mask < 8; ++mask) {
-                if (!mc_case("iii %s three requests kinds=%d%d%d allocation-fails=%u%u%u", tcp ? "tcp" : "serial", kinds & 1, (kinds >> 1) & 1, (kinds >> 2) & 1,
+                const bool tcp = tv != 0;
+                if (!mc_case("iii %s three requests kinds=%d%d%d allocation-fails=%u%u%u", TVN[tv], kinds & 1, (kinds >> 1) & 1, (kinds >> 2) & 1,
                              mask & 1, (mask >> 1) & 1, (mask >> 2) & 1))
                     continue;
                 size_t wn = 0;
                 for (int k = 0; k < 3; ++k) {
+                    /* writes of 4 words: the raw frame (20 / 24 octets) is longer than a header, so
+                     * that what is kept of it after a failed allocation is a proper prefix */
                     const bool write = (kinds >> k) & 1;
-                    const size_t n = build_request(raw[k], tcp, write, true, 0x200 + (uint32_t)k, 2, write ? 4 : 0, (uint16_t)(0x1100 + k));
+                    const size_t n = build_request(raw[k], tcp, write, true, 0x200 + (uint32_t)k, write ? 4 : 2, write ? 8 : 0, (uint16_t)(0x1100 + k));
                     wn += frame_wire(tcp, raw[k], n, wire + wn);
                 }
-                drv_init(&D, tcp, true, 128, !tcp);
+                drv_init_ex(&D, tcp, true, 128, tv_srcmode(tv));
                 D.fail_mask = mask;
                 struct result r;
                 serve(&D, wire, wn, 3, &r);
@@ -420,7 +490,8 @@ family_iv(void)
                     unsigned char scratch[DRV_WIRE];
                     struct rframe rp[8];
                     const int nr = replies(&D, c->tcp, rp, scratch);
-                    if (r.rrc[0] < 0 || r.errid[0] != EBADMSG || D.ncalls != 0)
+                    /* reported as bad header encoding = error.id; the return value may say so too */
+                    if (r.errid[0] != EBADMSG || D.ncalls != 0)
                         mc_fail("C09/short-frame-is-bad-header", "%s: rc=%d error.id=%d calls=%d (expected bad header encoding)", what, r.rrc[0], r.errid[0], D.ncalls);
                     else if (nr != 1 || rp[0].type != RT_META || rp[0].meta != 1)
                         mc_fail("C09/short-frame-is-bad-header", "%s: %d replies (expected the header-encoding meta message)", what, nr);
@@ -537,8 +608,8 @@ family_vi(void)
                         snprintf(what, sizeof what, "source fails with %d at octet %zu, allocation %s, mutation %d", D.src_err, pos, af ? "fails" : "ok", mut);
                         mc_log("%s: rc=%d error.id=%d frame=%d calls=%d", what, r.rrc[0], r.errid[0], r.hadframe[0], D.ncalls);
                         if (safety(&D, what)) {
-                            if (D.src_err_hit && r.rrc[0] != D.src_err)
-                                mc_fail("C09/channel-error-returned", "%s: regp_recv returned %d", what, r.rrc[0]);
+                            if (D.src_err_hit && r.rrc[0] >= 0)
+                                mc_fail("C09/channel-error-returned", "%s: regp_recv returned %d (expected a channel error)", what, r.rrc[0]);
                             else if (D.src_err_hit && D.ncalls != 0)
                                 mc_fail("C09/truncated-not-executed", "%s: %d memory accesses", what, D.ncalls);
                         }
@@ -564,16 +635,94 @@ family_vi(void)
                         serve(&D, wire, wn, 1, &r);
                         snprintf(what, sizeof what, "sink fails at reply octet %ld, request variant %d, allocation %s", spos, variant, af ? "fails" : "ok");
                         mc_log("%s: recv rc=%d process rc=%d reply=%zu", what, r.rrc[0], r.prc[0], D.outlen);
-                        if (safety(&D, what)) {
-                            const bool hit = D.sink_err_hit; /* the reply was long enough to reach the failing octet */
-                            if (hit && r.rrc[0] != -EIO && r.prc[0] != -EIO)
-                                mc_fail("C09/channel-error-returned", "%s: recv rc=%d process rc=%d", what, r.rrc[0], r.prc[0]);
-                        }
+                        /* the statement says nothing about how a failing sink is reported (meta
+                         * messages are best effort): memory safety, no hang, balanced ledger */
+                        (void)safety(&D, what);
                         drv_release(&D);
                     }
             mc_end(true, mc.cur_failed ? "failed" : "sink-errors");
         }
     }
+}
+
+/* ---- family vii: a failed reception must not leave a frame behind ---------------------------- */
+/* One RPMaybeFrame object is reused, as in the service loop the library
+ * documents (regp_recv; on rc < 0 error handling; regp_process; regp_free).
+ * First a valid write request is received and executed.  Then the stream is
+ * undecodable: if regp_recv returns a channel error and the caller goes on to
+ * regp_process (documented as lenient), nothing may be executed or
+ * acknowledged -- the earlier frame is not this reception's. */
+static void
+family_vii(void)
+{
+    unsigned char raw[64], w1[200], w2[64], scratch[DRV_WIRE];
+    for (int tcp = 0; tcp < 2; ++tcp)
+        for (int hold = 0; hold < 2; ++hold)
+            for (int bad = 0; bad < 4; ++bad) {
+                static const char *BADN[2][4] = { { "db 00 c0 (undecodable escape)", "db (ends inside an escape)", "the same request cut before its delimiter", "01 02 db ff c0" },
+                                                  { "prefix 20, five octets", "prefix of eleven continuation octets", "prefix 12, nothing", "the same request cut after 9 octets" } };
+                if (!mc_case("vii %s write16(2) then %s on one reused RPMaybeFrame, first frame %s", tcp ? "tcp" : "serial", BADN[tcp][bad],
+                             hold ? "still held by the caller" : "freed before"))
+                    continue;
+                const size_t n = build_request(raw, tcp, true, true, 0x300, 2, 4, 0x2200);
+                const size_t n1 = frame_wire(tcp, raw, n, w1);
+                size_t n2 = 0;
+                if (!tcp) {
+                    static const unsigned char B0[] = { 0xdb, 0x00, 0xc0 }, B1[] = { 0xdb }, B3[] = { 0x01, 0x02, 0xdb, 0xff, 0xc0 };
+                    if (bad == 0) { memcpy(w2, B0, sizeof B0); n2 = sizeof B0; }
+                    else if (bad == 1) { memcpy(w2, B1, sizeof B1); n2 = sizeof B1; }
+                    else if (bad == 2) { memcpy(w2, w1, n1 - 1); n2 = n1 - 1; }
+                    else { memcpy(w2, B3, sizeof B3); n2 = sizeof B3; }
+                } else {
+                    if (bad == 0) { w2[0] = 20; memset(w2 + 1, 0x01, 5); n2 = 6; }
+                    else if (bad == 1) { memset(w2, 0xff, 11); n2 = 11; }
+                    else if (bad == 2) { w2[0] = 12; n2 = 1; }
+                    else { memcpy(w2, w1, 9); n2 = 9; }
+                }
+                drv_init(&D, tcp, true, 128, !tcp);
+                RPMaybeFrame mf;
+                memset(&mf, 0, sizeof mf);
+                drv_feed(&D, w1, n1);
+                const int rrc1 = regp_recv(&D.p, &mf);
+                const int prc1 = rrc1 >= 0 ? regp_process(&D.p, &mf) : 0;
+                RPFrame *held = mf.frame;
+                const int calls1 = D.ncalls;
+                if (!hold && mf.frame != NULL) {
+                    regp_free(&D.p, mf.frame);
+                    held = NULL;
+                }
+                /* second reception into the same object */
+                drv_feed(&D, w2, n2);
+                D.ncalls = 0;
+                D.outlen = 0;
+                const int rrc2 = regp_recv(&D.p, &mf);
+                int prc2 = 0;
+                const bool failed = rrc2 < 0;
+                prc2 = regp_process(&D.p, &mf); /* the lenient caller */
+                if (!failed && mf.frame != NULL && mf.frame != held)
+                    regp_free(&D.p, mf.frame);
+                mc_trans(5);
+                mc_log("first: recv rc=%d process rc=%d calls=%d; second: recv rc=%d error.id=%d process rc=%d calls=%d reply=%zu", rrc1, prc1, calls1, rrc2,
+                       mf.error.id, prc2, D.ncalls, D.outlen);
+                if (rrc1 < 0 || calls1 != 1)
+                    mc_fail("C09/frame-that-fits-is-served", "the valid write request: recv rc=%d, %d memory accesses", rrc1, calls1);
+                else if (D.ncalls != 0)
+                    mc_fail("C09/failed-reception-not-executed", "reception %s (rc=%d) was followed by %d memory accesses in regp_process", failed ? "failed" : "of garbage", rrc2,
+                            D.ncalls);
+                else {
+                    struct rframe rp[8];
+                    const int nr = replies(&D, tcp, rp, scratch);
+                    for (int i = 0; i < nr; ++i)
+                        if ((rp[i].type == RT_READ_RESP || rp[i].type == RT_WRITE_RESP) && rp[i].meta == 0)
+                            mc_fail("C09/no-ack-without-access", "an undecodable stream was acknowledged");
+                }
+                if (held != NULL)
+                    regp_free(&D.p, held);
+                if (!mc.cur_failed)
+                    (void)safety(&D, "reused maybe-frame");
+                drv_release(&D);
+                mc_end(true, mc.cur_failed ? "failed" : failed ? "stale-frame-not-reused" : "garbage-classified");
+            }
 }
 
 int
@@ -598,7 +747,8 @@ main(int argc, char **argv)
     family_iv();
     family_v();
     family_vi();
-    mc_finish(true, g_th ? "block sizes {F+1,F+2,F+3,F+11..F+17,F+32,128,129,200,257}; i: every frame length up to capacity+6; ii: every read size up to capacity+8; iii: 2 transports x 8 kind triples x 8 allocation scripts; iv: 8 corpus frames x every position x 13 octets x allocation, every pair of positions x 13x13 octets, truncations, short frames, concatenations, 12 TCP prefixes x 3 tails; v: all strings of length 0..3 over 13 octets; vi: source error at every octet x 2 codes x allocation x every single-octet mutation, sink error at every reply octet"
-                         : "block sizes {F+1,F+2,F+11..F+17,F+32,128,129}; i: every frame length up to capacity+6; ii: every read size up to capacity+8; iii: 2 transports x 8 kind triples x 8 allocation scripts; iv: 6 corpus frames x every position x 13 octets x allocation, truncations, short frames, concatenations, 12 TCP prefixes x 3 tails; v: all strings of length 0..3 over 13 octets; vi: source error at every octet x 2 codes x allocation x 4 mutations, sink error at every reply octet");
+    family_vii();
+    mc_finish(true, g_th ? "block sizes {F+1,F+2,F+3,F+11..F+17,F+32,128,129,200,257}; i: every frame length up to capacity+6; ii: every read size up to capacity+8; iii: 2 transports x 8 kind triples x 8 allocation scripts; iv: 8 corpus frames x every position x 13 octets x allocation, every pair of positions x 13x13 octets, truncations, short frames, concatenations, 12 TCP prefixes x 3 tails; v: all strings of length 0..3 over 13 octets; vi: source error at every octet x 2 codes x allocation x every single-octet mutation, sink error at every reply octet; vii: 2 transports x 4 undecodable streams after a valid request on one reused RPMaybeFrame x first frame freed/held; i and iii also with a chunk source offering a scratch buffer; ii: 6 request header variants, sizes up to capacity+8 and 8 sizes >= 2^31-1"
+                         : "block sizes {F+1,F+2,F+11..F+17,F+32,128,129}; i: every frame length up to capacity+6; ii: every read size up to capacity+8; iii: 2 transports x 8 kind triples x 8 allocation scripts; iv: 6 corpus frames x every position x 13 octets x allocation, truncations, short frames, concatenations, 12 TCP prefixes x 3 tails; v: all strings of length 0..3 over 13 octets; vi: source error at every octet x 2 codes x allocation x 4 mutations, sink error at every reply octet; vii: 2 transports x 4 undecodable streams after a valid request on one reused RPMaybeFrame x first frame freed/held; i and iii also with a chunk source offering a scratch buffer; ii: 6 request header variants, sizes up to capacity+8 and 8 sizes >= 2^31-1");
     return 0;
 }
